@@ -1206,7 +1206,7 @@ func (sq *Queue) MarkQueueForRemoval() {
 	log.Log(log.SchedQueue).Info("marking managed queue for deletion",
 		zap.String("queue", sq.QueuePath))
 	sq.doRemoveQueue()
-	if len(sq.children) > 0 {
+	if len(children) > 0 {
 		for _, child := range children {
 			child.MarkQueueForRemoval()
 		}
@@ -1278,6 +1278,8 @@ func (sq *Queue) isRoot() bool {
 func (sq *Queue) TryIncAllocatedResource(alloc *resources.Resource) error {
 	// check this queue: failure stops checks if the allocation is not part of a node addition
 	if !sq.allocatedResFits(alloc) {
+		sq.RLock()
+		defer sq.RUnlock()
 		return fmt.Errorf("allocation (%v) puts queue '%s' over maximum allocation (%v), current usage (%v)",
 			alloc, sq.QueuePath, sq.maxResource, sq.allocatedResource)
 	}
@@ -1286,6 +1288,8 @@ func (sq *Queue) TryIncAllocatedResource(alloc *resources.Resource) error {
 		if err := sq.parent.TryIncAllocatedResource(alloc); err != nil {
 			// only log the warning if we get to the leaf: otherwise we could spam the log with the same message
 			// each time we return from a recursive call. Worst case (hierarchy depth-1) times.
+			sq.RLock()
+			defer sq.RUnlock()
 			if sq.isLeaf {
 				log.Log(log.SchedQueue).Warn("parent queue exceeds maximum resource",
 					zap.String("leafQueue", sq.QueuePath),
@@ -1365,6 +1369,8 @@ func (sq *Queue) DecAllocatedResource(alloc *resources.Resource) error {
 
 	// check this queue: failure stops checks
 	if alloc != nil && !sq.resourceFitsAllocated(alloc) {
+		sq.RLock()
+		defer sq.RUnlock()
 		return fmt.Errorf("released allocation (%v) is larger than '%s' queue allocation (%v)",
 			alloc, sq.QueuePath, sq.allocatedResource)
 	}
@@ -1373,6 +1379,8 @@ func (sq *Queue) DecAllocatedResource(alloc *resources.Resource) error {
 		if err := sq.parent.DecAllocatedResource(alloc); err != nil {
 			// only log the warning if we get to the leaf: otherwise we spam the log with the same message
 			// each time we return from a recursive call. Worst case (hierarchy depth-1) times.
+			sq.RLock()
+			defer sq.RUnlock()
 			if sq.isLeaf {
 				log.Log(log.SchedQueue).Warn("released allocation is larger than parent queue allocated resource",
 					zap.String("leafQueue", sq.QueuePath),
@@ -2289,7 +2297,7 @@ func (sq *Queue) findPreemptionFenceRoot(priorityMap map[string]int64, currentPr
 	shouldFenceByMax := false
 	maxResource := sq.GetMaxResource()
 	if maxResource != nil && len(maxResource.Resources) > 0 {
-		projected := resources.Add(sq.allocatedResource, askResource)
+		projected := resources.Add(sq.GetAllocatedResource(), askResource)
 		shouldFenceByMax = !maxResource.StrictlyGreaterThanOrEqualsOnlyExisting(projected)
 	}
 	// Return this queue as fence root if:
